@@ -14,6 +14,8 @@ CLAIMED.update({
          "bounds: record counts, shapes, |local|<=2; datetimes from a catalogue; two defects found were repaired (fix: commits)"),
  "C04": ("bounded model checking of ==: for all pairs (and triples) of documents in bounds z3 shows d1==d2, d2==d1, != and record/bundle equality coincide with an independent set-based content equivalence; content-preserving transformations give equal documents; hash agreement checked on every replayed witness", "4/C04",
          "bounds: <=2 (quick) / <=3 records per side, bundles of <=1/2 records; ints unbounded symbolic; stub: str(record) for logger.debug"),
+ "C05": ("bounded model checking of record normal form: 18 kinds x 4 entry paths x presence masks x every representation of each formal argument; second-value guard for every formal attribute; Literal(lexical, native xsd type) vs native value; set_time; asserted types - z3 decides name aliasing and value equality on every path", "4/C05",
+         "bounds: one record + one follow-up call, |local|<=2; xsd:double/dateTime/boolean lexicals and times from catalogues (dateutil/float conversions run concretely); ints via contract int(str(n))==n; not claimed: multi-entity membership compatibility path"),
 })
 NA = {}
 props = [json.loads(l) for l in open(os.path.join(V, "properties.jsonl"))]
